@@ -259,6 +259,20 @@ func (s *Sim) genAsks(appID string) Op {
 		if r.Bool(0.3) {
 			a.Priority = int32(r.Range(-2, 5))
 		}
+		// directed: the queue (or an ancestor) forbids a type with an explicit zero in its maximum - ask for it
+		if app != nil && app.Status == "accepted" && r.Bool(0.35) {
+			if q := s.appQueue(appID); q != "" {
+				em := s.conf.effMax(q)
+				mx := s.maxNodeCap()
+				for _, t := range resTypes {
+					if v, ok := em[t]; ok && v == 0 && mx[t] > 0 {
+						a.Res[t] = 1
+						s.probe("directed_ask_for_forbidden_type")
+						break
+					}
+				}
+			}
+		}
 		a.PreemptSelf = r.Bool(0.8)
 		a.PreemptOther = r.Bool(0.6)
 		if s.pf.Preemption {
